@@ -111,6 +111,7 @@ class Interp(object):
         self.max_depth = 120
         self.max_loop = 5000
         self.merge_ifs = False   # opt-in state merging of simple if statements
+        self.symbolic_dict_keys = False
         self.no_interp = set()  # function objects to run natively although in repo
         from . import summaries
         summaries.install(self)
@@ -1023,6 +1024,10 @@ class Interp(object):
     def hashable(self, k):
         """Keys of native dicts/sets must be concrete."""
         if isinstance(k, (SInt, SBool)):
+            if self.symbolic_dict_keys:
+                # opt-in: keep the symbolic key object (identity-hashed); sound only where the
+                # keys are provably distinct and the dictionary is inspected by value afterwards
+                return k
             return sym.engine().concretize(k, what='dictionary key', limit=64)
         if isinstance(k, SBuf):
             if k.is_symbolic():
